@@ -304,3 +304,55 @@ def accumulation_setter(ctx, rule):
     allowed = {"network::Network::set_accumulation", "network::Network::new", "network::Network::create"}
     ctx.check(rule, "set_accumulation:only-writer", writers <= allowed, "accumulation-written-by:" + ",".join(sorted(writers - allowed)), c.loc(fn),
               "written only by the setter (and the constructor): %s" % sorted(writers))
+
+
+# ---------------------------------------------------------------------------------------------
+# who-may-permute: operations that move the entries of a Vec / slice to other positions
+PERMUTING = ("reverse", "swap", "rotate_left", "rotate_right", "sort", "sort_by", "sort_by_key", "sort_by_cached_key", "sort_unstable", "sort_unstable_by",
+             "sort_unstable_by_key", "swap_remove", "swap_with_slice", "select_nth_unstable")
+# the sites confirmed by reading the pinned tree: (function, operation) -> why it is not a rearrangement of a result
+PERMUTING_SITES = {
+    ("convolution::Convolution::rotate", "reverse"): "the 180-degree kernel flip itself (rows and columns reversed; checked by R01.3)",
+    ("feedback::Feedback::backward", "sort"): "sorts the skip-target index list it has just built (order-insensitive use)",
+    ("<feedback::Feedback as std::fmt::Display>::fmt", "sort_by_key"): "display only",
+    ("<network::Network as std::fmt::Display>::fmt", "sort_by_key"): "display only",
+    ("random::Generator::shuffle", "swap"): "the shuffle: the one function whose contract is to permute (C18)",
+}
+
+
+def _family(op):
+    return "sort" if op.startswith("sort") or op.startswith("select_nth") else ("rotate" if op.startswith("rotate") else ("swap" if op.startswith("swap") else op))
+
+
+_SITES = {(f_, _family(o_)) for (f_, o_) in PERMUTING_SITES}
+
+
+def no_permuting_ops(ctx, rule, inst, files, floor_fns, skip=None, only=None):
+    """Over every function defined in `files` (optionally filtered by name): no Vec / slice operation that moves entries to other positions
+    (reverse, swap, rotate, sort ..; `mem::swap` of two entries) outside the confirmed table.  The element-wise pipelines of these modules
+    produce entry i from entry i of their operands; a permutation applied to an operand, an intermediate or a result breaks that
+    correspondence whatever the surrounding code looks like."""
+    c = ctx.crate
+    nfn, bad = 0, []
+    for path, fn in sorted(c.fns.items()):
+        if fn.get("file") not in files:
+            continue
+        leaf = path.rsplit("::", 1)[-1]
+        if (skip and skip(path, leaf)) or (only and not only(path, leaf)):
+            continue
+        nfn += 1
+        for x in walk(fn["body"]):
+            k = x.get("k")
+            if k == "mcall" and x["name"] in PERMUTING and ("Vec" in x["callee"] or "slice" in x["callee"] or "[T]" in x["callee"]):
+                if (path, _family(x["name"])) not in _SITES:       # the variants of one operation (sort / sort_unstable / sort_by ..) count as the same site
+                    bad.append((path, x["name"], c.loc(fn, x)))
+            elif k == "call" and str(x.get("callee", "")).endswith("mem::swap") and len(x.get("args") or []) == 2:
+                a0, a1 = (strip(a) for a in x["args"])
+                if a0 is not None and a1 is not None and a0.get("k") == "index" and a1.get("k") == "index":
+                    bad.append((path, "mem::swap", c.loc(fn, x)))
+    ctx.check(rule, inst + ":entries-stay-in-place", nfn >= floor_fns and not bad,
+              ("entries-moved-by:" + ",".join(sorted({"%s:%s" % (b[0].rsplit("::", 2)[-2] + "::" + b[0].rsplit("::", 1)[-1], b[1]) for b in bad}))) if bad else "functions-scanned:%d" % nfn,
+              bad[0][2] if bad else ",".join(sorted(files)),
+              "%d functions of %s: no entry-moving list operation outside the confirmed sites" % (nfn, ",".join(sorted(files))),
+              "%s: entry i of the list no longer corresponds to entry i of what it was computed from"
+              % "; ".join("%s applies %s (%s)" % (b[0], b[1], b[2]) for b in bad[:3]) if bad else "only %d functions found in %s (expected >= %d)" % (nfn, sorted(files), floor_fns))
